@@ -318,6 +318,11 @@ macro_rules! scalar_io {
                 concat!("out_", $name), "", vec!["v"],
                 (|v: $t| { log_with(|| Ev::Out(($conv)(v))); }) as fn($t),
                 roto::location!()).unwrap().into());
+            // same observation, but returning a value (the IR evaluator cannot call unit functions)
+            $lib.add(roto::Function::new(
+                concat!("ov_", $name), "", vec!["v"],
+                (|v: $t| -> i32 { log_with(|| Ev::Out(($conv)(v))); 0 }) as fn($t) -> i32,
+                roto::location!()).unwrap().into());
         )*
     };
 }
@@ -355,6 +360,10 @@ pub fn build_runtime() -> Runtime<roto::NoCtx> {
         }
         fn out_String(v: RotoString) {
             log_with(|| Ev::Out(V::Str(v.to_string())));
+        }
+        fn ov_String(v: RotoString) -> i32 {
+            log_with(|| Ev::Out(V::Str(v.to_string())));
+            0
         }
         fn out_IpAddr(v: std::net::IpAddr) {
             log_with(|| Ev::Out(V::Str(format!("ip:{v}"))));
